@@ -2,6 +2,7 @@ package cluster
 
 import (
 	"fmt"
+	"os"
 	"sort"
 
 	"github.com/Fantom-foundation/lachesis-base/abft"
@@ -418,12 +419,27 @@ func (cl *Cluster) quiesce() {
 			if a.epoch() != b.epoch() {
 				c.Violation("quiescence", "quiescence/epoch", "after healing and %d sync rounds node %s is in epoch %d, node %s in epoch %d", len(cl.nodes)*2+4, a.name, a.epoch(), b.name, b.epoch())
 			}
-			if len(a.blocks) != len(b.blocks) {
-				c.Violation("quiescence", "quiescence/blocks", "after healing: node %s has %d blocks, node %s has %d\n%s\n%s", a.name, len(a.blocks), b.name, len(b.blocks), cl.fmtBlocks(a.blocks), cl.fmtBlocks(b.blocks))
+			from := a.resetFrom // epochs skipped by a Reset are not comparable
+			if b.resetFrom > from {
+				from = b.resetFrom
 			}
-			for i := range a.blocks {
-				if a.blocks[i].key() != b.blocks[i].key() {
-					c.Violation("disagreement", "disagreement", "block %d: node %s has %s, node %s has %s", i, a.name, a.blocks[i].key(), b.name, b.blocks[i].key())
+			var ab, bb []*BlockRec
+			for _, x := range a.blocks {
+				if x.Epoch >= from {
+					ab = append(ab, x)
+				}
+			}
+			for _, x := range b.blocks {
+				if x.Epoch >= from {
+					bb = append(bb, x)
+				}
+			}
+			if len(ab) != len(bb) {
+				c.Violation("quiescence", "quiescence/blocks", "after healing: node %s has %d blocks (epochs >= %d), node %s has %d\n%s\n%s", a.name, len(ab), from, b.name, len(bb), cl.fmtBlocks(ab), cl.fmtBlocks(bb))
+			}
+			for i := range ab {
+				if ab[i].key() != bb[i].key() {
+					c.Violation("disagreement", "disagreement", "block %d: node %s has %s, node %s has %s", i, a.name, ab[i].key(), b.name, bb[i].key())
 				}
 			}
 		}
@@ -460,6 +476,16 @@ func (cl *Cluster) quiesce() {
 	if maxBlocks >= 2 {
 		c.MarkNontrivial()
 	}
+	if os.Getenv("VERIF_DEBUG_RUNS") != "" {
+		mf, np := uint32(0), 0
+		for _, pe := range cl.pool {
+			if uint32(pe.Ev.Frame()) > mf {
+				mf = uint32(pe.Ev.Frame())
+			}
+			np += len(pe.Ev.Parents())
+		}
+		fmt.Printf("RUN vals=%d nodes=%d events=%d emitted=%d pool=%d blocks=%d forks=%d epochs=%d cheaters=%d maxframe=%d avgparents=%.1f maxparents=%d drop=%d wm=%d ops=%d\n", cl.k.nVal, len(cl.nodes), cl.k.events, cl.emitted, len(cl.pool), maxBlocks, forks, len(cl.epochs), len(cl.k.cheaters), mf, float64(np)/float64(len(cl.pool)+1), cl.k.maxParents, cl.k.dropPm, cl.k.weightMode, len(cl.c.Trace.Ops))
+	}
 	if forks > 0 {
 		c.Probe("run_with_forks")
 	}
@@ -468,6 +494,15 @@ func (cl *Cluster) quiesce() {
 	}
 	if len(cl.epochs) > 1 {
 		c.Probe("run_with_epoch_change")
+	}
+	if os.Getenv("VERIF_DEBUG_RUNS") == "2" && cl.k.nVal >= 4 && len(cl.pool) > 100 && maxBlocks == 0 {
+		for _, pe := range cl.pool {
+			fmt.Printf("  EV %s by node %d lamport %d\n", cl.descEv(pe), pe.By, pe.Ev.Lamport())
+		}
+		for _, n := range cl.nodes {
+			fmt.Printf("  NODE %s has=%d stopped=%v\n", n.name, len(n.has), n.stopped)
+		}
+		os.Exit(0)
 	}
 	cl.ext.atQuiescence()
 }
